@@ -73,13 +73,9 @@ func (s *state) ProcessDescriptor(desc SegmentationDescriptor) ([]SegmentationDe
 	for _, e := range s.received {
 		if e != nil {
 			for _, d := range e.descs {
-				if e.pts == pts {
-					if desc.Equal(d) {
-						// Duplicate desc found
-						return nil, gots.ErrSCTE35DuplicateDescriptor
-					}
-					e.descs = append(e.descs, desc)
-					descAdded = true
+				if e.pts == pts && desc.Equal(d) {
+					// Duplicate desc found
+					return nil, gots.ErrSCTE35DuplicateDescriptor
 				}
 				// check if we have seen a VSS signal with the same signalId and
 				// same eventId before.
@@ -102,6 +98,11 @@ func (s *state) ProcessDescriptor(desc SegmentationDescriptor) ([]SegmentationDe
 						return nil, gots.ErrSCTE35DuplicateDescriptor
 					}
 				}
+			}
+			if e.pts == pts && !descAdded {
+				// remember it once with the other descriptors of its signal time
+				e.descs = append(e.descs, desc)
+				descAdded = true
 			}
 		}
 	}
